@@ -42,7 +42,10 @@ def L(q, t=None):
 
 # property -> lanes per tier (+ optional python runner module for orchestrated lanes)
 PROPS = {
+    "C03": dict(lanes=L(["rel", "dbg"])),
+    "C04": dict(lanes=L(["rel", "dbg"])),
     "C12": dict(lanes=L(["rel", "dbg"], ["rel", "dbg"])),
+    "C27": dict(lanes=L(["rel", "dbg"])),
     "C13": dict(lanes=L(["rel", "dbg"])),
     "C32": dict(lanes=L(["rel", "dbg"])),
 }
